@@ -152,3 +152,10 @@ impl ByteString {
     /// identity borrow (lets method-call auto-deref strip reference layers for the R6 comparison shim)
     pub fn vx_b(&self) -> (r: &ByteString) ensures r@ == self@ { self }
 }
+
+/// R42 target for `v.extend(opt)`: an `Option` iterates over zero or one element
+pub fn vx_extend_opt<T>(v: &mut Vec<T>, o: Option<T>)
+    ensures o is Some ==> final(v)@ == old(v)@.push(o->0), o is None ==> final(v)@ == old(v)@,
+{
+    match o { Some(x) => { v.push(x); } None => {} }
+}
